@@ -1,14 +1,17 @@
 from props.common import *
+from props.boundedrun import script
 ID = "C06"
 LEVEL = "proof"
 TAGS = ("C06",)
 CONTRACT_MODULES = ALL_CONTRACTS
 FUNCTIONS = [S + "_processExtendedGcodeEntry", S + "processExtendedGcode", S + "_processPendingCommands", S + "exitExcludedRegion",
-             S + "enterExcludedRegion", S + "disableExclusion", P + "handleScriptHook", S + "resetState", H + "handleGcode"]
+             S + "enterExcludedRegion", S + "disableExclusion", P + "handleScriptHook", S + "resetState", H + "handleGcode", "GcodeParser.GcodeParser.buildCommand", "__init__.ExcludeRegionPlugin._handleSettingsUpdated"]
 ASSUMPTIONS = ["A1", "A2", "A3", "A4", "INDUCTION"]
+BOUNDED = [script("split_script.py")]
 EXTRA_ASSUMPTIONS = ["collections.OrderedDict is modelled as an insertion-ordered map with pairwise distinct keys (abstract array view of arbitrary symbolic size)",
                      "the configuration is stable during an episode (an entry stored for a merge-mode code is an argument map); merge-mode commands consist of letter/number words",
-                     "GcodeParser.buildCommand is an opaque rendering of (code, argument map); its textual format is the subject of C07",
+                     "callers see GcodeParser.buildCommand as an opaque rendering of (code, argument map); the real buildCommand (constructor, gcode setter, parameterDict setter, stringify) is executed for argument maps of 0..3 parameters with symbolic values and read back with the independent RS274 reader (bounded in the number of parameters only)",
+                     "_handleSettingsUpdated is verified for 0..2 configured extended codes and 0..2 configured @-command actions with symbolic modes/actions/descriptions (bounded in these counts only); _splitGcodeScript is an opaque function of the configured text there and is checked bounded (coverage.bounded: bounded/split-script)",
                      "'new print': nothing deferred survives a reset (resetState installs an empty table; no exit script is owed for an episode aborted by a reset)"]
 EXPLANATION = ("Whole-table post-conditions over an ordered map of arbitrary symbolic size: exclude leaves the table unchanged; first "
                "appends (code, command) iff the code is absent; last removes the code's entry and appends the new command; merge removes "
@@ -16,8 +19,13 @@ EXPLANATION = ("Whole-table post-conditions over an ordered map of arbitrary sym
                "spec function last_idx); all return IGNORE. _processPendingCommands returns one command per entry in insertion order "
                "followed by the exit script and empties the table (loop invariant over a growing list); exitExcludedRegion / "
                "disableExclusion / handleScriptHook place that before G92 E and the moves; enterExcludedRegion returns the enter script "
-               "iff an episode actually begins; processExtendedGcode withholds only configured codes inside an episode.")
+               "iff an episode actually begins; processExtendedGcode withholds only configured codes inside an episode. A merged command "
+               "(buildCommand) reads back as exactly its arguments, a value of 0 included. The lists handed out by enterExcludedRegion / "
+               "_processPendingCommands never alias the configured scripts. _handleSettingsUpdated takes the scripts from their own "
+               "settings keys and mirrors the configured deferral and @-command tables (last entry wins for a repeated code).")
 BREAKERS = [
+    {"module": "GcodeParser", "old": "                if (val is not None):\n                    key += formatNumber(val)", "new": "                if (val):\n                    key += formatNumber(val)",
+     "desc": "merged command drops a value of 0", "functions": ["GcodeParser.GcodeParser.buildCommand"]},
     {"module": "ExcludeRegionState", "old": "            self.pendingCommands.pop(gcode, None)\n            self.pendingCommands[gcode] = cmd",
      "new": "            self.pendingCommands[gcode] = cmd", "desc": "'last' mode keeps the position of the first occurrence",
      "functions": [S + "_processExtendedGcodeEntry"]},
